@@ -127,13 +127,13 @@ def run_check(pid, tier, seed):
             parts = check['parts'](tier) if callable(check['parts']) else check['parts']
             budget = check['budget'][tier]
             maxw = check.get('max_workers', NCPU)
-            chunks = chunk(list(parts), maxw * 8)
-            # the whole check stays within total_s of wall time even if no partition exhausts (budgets are caps)
-            total_s = check.get('total_s', {'quick': 360, 'thorough': 1200})[tier]
-            rounds = -(-len(chunks) // NCPU)
-            budget = min(budget, max(20, total_s // max(1, rounds)))
-            for ci, ch in enumerate(chunks):
+            for ci, ch in enumerate(chunk(list(parts), maxw * 8)):
                 jobs.append((check, ch, budget))
+        # the whole property stays within total_s of wall time even if no partition exhausts (budgets are caps)
+        total_s = getattr(mod, 'TOTAL_S', {'quick': 420, 'thorough': 1500})[tier]
+        rounds = -(-len(jobs) // NCPU)
+        cap = max(20, total_s // max(1, rounds))
+        jobs = [(c, ch, min(b, cap)) for c, ch, b in jobs]
         # schedule: ceil(jobs/NCPU) rounds; budgets are per job
         q = queue.Queue()
         for j in enumerate(jobs):
